@@ -227,6 +227,9 @@ def solve_eigen(A: spmatrix,
 
     if x is not None and I is not None:
         L, X = solver(A, M, **kwargs)
+        if (np.isrealobj(x) and np.iscomplexobj(X)
+                and not np.any(np.imag(X))):
+            X = np.real(X)  # eigs returns complex arrays also for real modes
         # the expanded vectors must be able to hold the solution
         y = np.tile(x.astype(np.result_type(x, X))[:, None],
                     (1, X.shape[1]))
